@@ -21,7 +21,7 @@ TOKEN_HELPERS = {"_advance", "_expect", "_accept", "_peek"}
 
 
 def _copy_env(env):
-    return {k: (set(v) if isinstance(v, set) else v) for k, v in env.items()}
+    return {k: (set(v) if isinstance(v, set) else dict(v) if isinstance(v, dict) else v) for k, v in env.items()}
 
 
 def _null_test(t):
@@ -38,11 +38,70 @@ def _null_test(t):
     return None
 
 
+def _null_facts(t):
+    """(facts on the then-branch, facts on the else-branch), a fact = (local name, is_none): `a is None or b`: else-branch knows a is not None;
+    `a is not None and ...`: then-branch knows a is not None."""
+    one = _null_test(t)
+    if one is not None:
+        name, none_when_true = one
+        strict = isinstance(t, ast.Compare)          # `is None` tests decide None-ness exactly; truthiness tests only say "None or empty"
+        return ([(name, none_when_true)] if strict or not none_when_true else []), ([(name, not none_when_true)] if strict or none_when_true else [])
+    if isinstance(t, ast.BoolOp):
+        parts = [_null_facts(v) for v in t.values]
+        if isinstance(t.op, ast.Or):
+            return [], [f for _th, el in parts for f in el]
+        return [f for th, _el in parts for f in th], []
+    if isinstance(t, ast.UnaryOp) and isinstance(t.op, ast.Not):
+        th, el = _null_facts(t.operand)
+        return el, th
+    return [], []
+
+
+def _apply_null_facts(env, facts):
+    for name, is_none in facts:
+        if name in env and isinstance(env[name], set):
+            if is_none:
+                env[name] = {("const", None)}
+            else:
+                rest = {d for d in env[name] if d != ("const", None)}
+                if rest:
+                    env[name] = rest
+
+
+def _peeked(d):
+    """the ('tok', '_peek', ...) descriptor of the NEXT token inside d, if any"""
+    if isinstance(d, tuple):
+        if len(d) >= 2 and d[0] == "tok" and d[1] == "_peek" and d[2] in (None, 1):
+            return d
+        for x in d:
+            r = _peeked(x)
+            if r is not None:
+                return r
+    if isinstance(d, frozenset):
+        for x in d:
+            r = _peeked(x)
+            if r is not None:
+                return r
+    return None
+
+
+def _subst(d, old, new):
+    """descriptor d with every occurrence of descriptor `old` replaced by `new`"""
+    if d == old:
+        return new
+    if isinstance(d, tuple):
+        return tuple(_subst(x, old, new) for x in d)
+    if isinstance(d, frozenset):
+        return frozenset(_subst(x, old, new) for x in d)
+    return d
+
+
 class Site:
     """One call expression of interest with the environment that reaches it."""
 
-    def __init__(self, node, env, fn, ordinal, guards):
+    def __init__(self, node, env, fn, ordinal, guards, args=(), kws=None):
         self.node, self.env, self.fn, self.ordinal, self.guards = node, env, fn, ordinal, guards
+        self.args, self.kws = list(args), dict(kws or {})
 
 
 class FnWiring:
@@ -56,19 +115,33 @@ class FnWiring:
         self.returns = []        # (Return node, descriptor set, guards)
         self.appends = {}        # name -> list of (descriptor set, method) appended/extended in source order
         self._count = {}
-        self._number_calls()
-        env = {a.arg: {("param", a.arg)} for a in (fn.args.args[1:] if is_method else fn.args.args)}
+        self._inline_depth = 0
+        # parameters of private helpers are named by position (renaming them is not a change); public entry points keep their names
+        plist = fn.args.args[1:] if is_method else fn.args.args
+        self.param_desc = {a.arg: ("param", f"#{i}" if fn.name.startswith("_") else a.arg) for i, a in enumerate(plist)}
+        env = {a.arg: {self.param_desc[a.arg]} for a in plist}
         self.block(fn.body, env, ())
 
     # ------------------------------------------------------------------
     def _number_calls(self):
-        order = sorted((n for n in ast.walk(self.fn) if isinstance(n, ast.Call)), key=lambda n: (n.lineno, n.col_offset))
-        cnt = {}
-        for n in order:
-            name = self._callee_name(n)
-            k = cnt.get(name, 0)
-            self.ordinals[id(n)] = k
-            cnt[name] = k + 1
+        return None        # (kept for callers; ordinals are now counted along paths, see _ord)
+
+    def _ord(self, e, env):
+        """Ordinals of this call among the calls to the same callee ALONG THE PATHS that reach it (not in source order): merging or duplicating
+        branch tails, reordering branches and extracting / inlining helpers leave them unchanged.  Inside a loop the count saturates to 'k+'."""
+        name = self._callee_name(e)
+        cnt = env.setdefault("$cnt", {})
+        cur = cnt.get(name, frozenset([0]))
+        labels, new = set(), set()
+        for c in cur:
+            if isinstance(c, str):
+                labels.add(c)
+                new.add(c)
+            else:
+                labels.add(c)
+                new.add(c + 1)
+        cnt[name] = frozenset(new)
+        return sorted(labels, key=str)
 
     def _callee_name(self, n):
         f = n.func
@@ -132,6 +205,8 @@ class FnWiring:
             for ch in ast.iter_child_nodes(e):
                 if isinstance(ch, ast.expr):
                     self.ev(ch, env, guards)
+            if isinstance(e, ast.Compare) or isinstance(e.op, ast.Not):
+                return {("const", True), ("const", False)}      # a truth value: one of the two constants (which one is path-dependent)
             return {("bool",)}
         if isinstance(e, ast.JoinedStr):
             return {("str",)}
@@ -154,22 +229,39 @@ class FnWiring:
         self._in_test = saved
         if isinstance(f, ast.Attribute) and f.attr == "_reset":
             env["$pend"] = set()
-        self.sites.append(Site(e, _copy_env(env), self.fn, self.ordinals[id(e)], guards))
+        is_self_call = isinstance(f, ast.Attribute) and isinstance(f.value, ast.Name) and f.value.id == self.selfname
+        if is_self_call and f.attr in INLINE and self._inline_depth < 3 and f.attr != self.fn.name:
+            return self._inline(e, f.attr, args, kws, env, guards)
+        ords = self._ord(e, env)
+        self.sites.append(Site(e, _copy_env(env), self.fn, ords[0], guards, args, kws))
         e._args, e._kws = args, kws
-        if isinstance(f, ast.Attribute) and isinstance(f.value, ast.Name) and f.value.id == self.selfname:
+        if is_self_call:
             m = f.attr
             if m in TOKEN_HELPERS:
                 types = None
-                if e.args and isinstance(e.args[0], ast.Constant) and isinstance(e.args[0].value, str):
+                if e.args and isinstance(e.args[0], ast.Constant) and isinstance(e.args[0].value, (str, int)):
                     types = e.args[0].value
-                return {("tok", m, types, self.ordinals[id(e)], (e.lineno, e.col_offset))}
+                restr = getattr(self, "_first_tok_restr", None)
+                self._first_tok_restr = None          # only the first token operation of an inlined helper inherits the caller's look-ahead
+                if restr is not None and m in ("_advance", "_expect", "_accept"):
+                    res = {("tok", m, types, k, (e.lineno, e.col_offset), restr) for k in ords}
+                else:
+                    res = {("tok", m, types, k, (e.lineno, e.col_offset)) for k in ords}
+                if m in ("_advance", "_expect") and len(res) == 1:
+                    # the token consumed now is the one the last _peek() looked at: variables that hold the peeked token hold this token
+                    new = next(iter(res))
+                    for env_ in [env] + list(getattr(self, "_env_stack", [])):      # (the variables of the callers of an inlined helper too)
+                        for name_, vals in list(env_.items()):
+                            if isinstance(vals, set) and not name_.startswith("$"):
+                                env_[name_] = {_subst(d, pk, new) if (pk := _peeked(d)) is not None else d for d in vals}
+                return res
             if m == "_tok_coord" and args:
                 return {("coordof", d) for d in args[0]}
             if m == "_coord":
                 return {("coordof", ("opaque", "line/column"))}
-            return {("call", m, self.ordinals[id(e)])}
+            return {("call", m, k) for k in ords}
         if isinstance(f, ast.Attribute) and isinstance(f.value, ast.Name) and f.value.id == "c_ast":
-            return {("ctor", f.attr, self.ordinals[id(e)])}
+            return {("ctor", f.attr, k) for k in ords}
         if isinstance(f, ast.Name):
             if f.id == "cast" and len(e.args) == 2:
                 return set(args[1])
@@ -177,13 +269,63 @@ class FnWiring:
                 return {("dict", tuple(sorted((k, v) for k, v in kws.items())))}
             if f.id in env:
                 # call through a local: a class-valued variable (klass) or a nested function
-                return {("ctorvar", d, self.ordinals[id(e)]) for d in env[f.id]}
-            return {("fcall", f.id, self.ordinals[id(e)], tuple(args))}
+                return {("ctorvar", d, k) for d in env[f.id] for k in ords}
+            return {("fcall", f.id, k, tuple(args)) for k in ords}
         if isinstance(f, ast.Attribute):
             base = self.ev(f.value, env, guards)
             cargs = tuple(a.value if isinstance(a, ast.Constant) else "?" for a in e.args)
             return {("mcall", d, f.attr, cargs) for d in base}
         return {("opaque", S.unparse(e)[:60])}
+
+    def _inline(self, e, m, args, kws, env, guards):
+        """A private helper the reviewed reference does not know (extracted after the review): its body is interpreted in place, so the
+        caller's wiring is what it was before the extraction."""
+        callee = METHODS[m]
+        params = callee.args.args[1:]
+        defaults = dict(zip([p_.arg for p_ in reversed(params)], reversed(callee.args.defaults)))
+        env2 = {"$cnt": env.setdefault("$cnt", {}), "$pend": set()}
+        for i, p_ in enumerate(params):
+            if i < len(args):
+                env2[p_.arg] = set(args[i])
+            elif p_.arg in kws:
+                env2[p_.arg] = set(kws[p_.arg])
+            elif p_.arg in defaults:
+                env2[p_.arg] = self.ev(defaults[p_.arg], {}, guards)
+            else:
+                env2[p_.arg] = {("opaque", "missing argument")}
+        saved_ret, saved_fnname = self.returns, self.selfname
+        self.returns = []
+        self.selfname = callee.args.args[0].arg if callee.args.args else self.selfname
+        self._inline_depth += 1
+        # the first token the helper consumes is the one its caller was looking at: the caller's look-ahead facts at this call apply to it
+        self._first_tok_restr = frozenset(CALL_LA.get((m, e.lineno), ())) or None
+        self._env_stack = getattr(self, "_env_stack", []) + [env]
+        try:
+            out = self.block(callee.body, env2, guards)
+        finally:
+            self._env_stack = self._env_stack[:-1]
+            self._inline_depth -= 1
+            rets, self.returns, self.selfname = self.returns, saved_ret, saved_fnname
+        value = set()
+        cnts = []
+        for _st, v, _g, renv in rets:
+            value |= set(v)
+            cnts.append(renv.get("$cnt", {}))
+        if out is not None:
+            value.add(("const", None))
+            cnts.append(out.get("$cnt", {}))
+        merged = {}
+        for c in cnts:
+            for k_, v_ in c.items():
+                merged[k_] = merged.get(k_, frozenset()) | v_
+        names = set().union(*[set(c) for c in cnts]) if cnts else set()
+        for k_ in names:
+            for c in cnts:
+                if k_ not in c:
+                    merged[k_] = merged[k_] | frozenset([0])
+        if cnts:
+            env["$cnt"] = merged
+        return value or {("const", None)}
 
     # ------------------------------------------------------------------
     def assign(self, t, v, env):
@@ -209,6 +351,11 @@ class FnWiring:
                     continue
                 out.setdefault(k, set()).update(v)
         out["$pend"] = set().union(*[e.get("$pend", set()) for e in envs])      # must-use: pending on any joining path
+        cnt = {}
+        names = set().union(*[set(e.get("$cnt", {})) for e in envs]) if envs else set()
+        for k in names:
+            cnt[k] = frozenset().union(*[e.get("$cnt", {}).get(k, frozenset([0])) for e in envs])
+        out["$cnt"] = cnt
         return out
 
     def block(self, body, env, guards):
@@ -268,6 +415,9 @@ class FnWiring:
             if nul and nul[0] in env:
                 # on the branch where the variable is None / empty nothing it stands for can be lost
                 (ea if nul[1] else eb).setdefault("$pend", set()).difference_update(env[nul[0]])
+            th_facts, el_facts = _null_facts(st.test)
+            _apply_null_facts(ea, th_facts)
+            _apply_null_facts(eb, el_facts)
             a = self.block(st.body, ea, guards + (("if", g, True, st),))
             b = self.block(st.orelse, eb, guards + (("if", g, False, st),))
             outs = [x for x in (a, b) if x is not None]
@@ -288,6 +438,16 @@ class FnWiring:
                 out = self.block(st.body, e2, guards + (("loop", st.lineno, True, st),))
                 exits = self._loop_exits.pop()
                 nxt = self.merge([cur] + ([out] if out is not None else []) + [x for kind, x in exits if kind == "continue"])
+                # a count that grows in the loop saturates: 'k+' = k or more calls so far on this path
+                for k_, v_ in list(nxt.get("$cnt", {}).items()):
+                    before = cur.get("$cnt", {}).get(k_, frozenset([0]))
+                    if v_ != before:
+                        ints = [x for x in before | v_ if not isinstance(x, str)]
+                        sat = {x for x in before | v_ if isinstance(x, str)}
+                        lo = min(ints) if ints else None
+                        if lo is not None:
+                            sat = {f"{min([lo] + [int(x[:-1]) for x in sat])}+"}
+                        nxt["$cnt"][k_] = frozenset(sat)
                 if nxt == cur:
                     break
                 cur = nxt
@@ -339,6 +499,9 @@ class FnWiring:
 
 
 _cache = {}
+CALL_LA = {}          # (callee, line of call) -> look-ahead set at that call (from the grammar model), set by wirecheck
+INLINE = set()        # names of private helpers to interpret in place (set by wirecheck: methods the reviewed reference does not know)
+METHODS = {}          # name -> FunctionDef of the analysed class
 
 
 def of(modname, cls, method):
@@ -385,6 +548,8 @@ def simplify(d):
         if d[1] == "_peek":
             return "peek"
         ts = (TOKSITES or {}).get(d[4]) if len(d) > 4 else None
+        if ts and len(d) > 5 and d[5]:
+            ts = set(ts) & set(d[5])
         if ts:
             return "tok{" + ",".join(sorted(ts)) + "}"
         return "tok{" + (d[2] or "?") + "}"
@@ -429,7 +594,7 @@ def simp_set(ds):
 
 
 import re as _re
-_ACC = _re.compile(r"(_add_declaration_specifier)#\d+")
+_ACC = _re.compile(r"(_add_declaration_specifier)#\d+\+?")
 
 
 def _collapse(text):
